@@ -3,7 +3,7 @@
 From Coq Require Import List Bool.
 From Coq Require Import NArith Arith.
 From Carquet Require Import Base.Res Gen.Dispatch_gen Gen.Intrinsics_gen Simd.DispatchModel Simd.DispatchProofs.
-From Carquet Require Import Simd.Vec Simd.ScalarKernels Simd.SseKernels Simd.Avx2Kernels Simd.Avx512Kernels Simd.BssProofs Simd.SeqProofs Simd.MemProofs Simd.LevelProofs Simd.PackProofs Simd.PsumProofs Simd.UnpackProofs.
+From Carquet Require Import Simd.Vec Simd.ScalarKernels Simd.SseKernels Simd.Avx2Kernels Simd.Avx512Kernels Simd.BssProofs Simd.SeqProofs Simd.MemProofs Simd.LevelProofs Simd.PackProofs Simd.PsumProofs Simd.UnpackProofs Simd.ScanProofs.
 Import ListNotations.
 
 (** Dispatcher: for EVERY capability set (any list of features) and every slot of the dispatch table
@@ -280,3 +280,24 @@ Theorem avx512_bitunpack32_4bit_kernel_eq_scalar : forall inp,
   length inp = 16 -> bytes_ok inp -> avx512_bitunpack32_4bit inp = Ok (scalar_bitunpack 4 32 inp).
 Proof. exact avx512_bitunpack32_4bit_eq_scalar. Qed.
 Print Assumptions avx512_bitunpack32_4bit_kernel_eq_scalar.
+
+(** early-exit scans: find_run_length_i32 (three ISAs) and match_length (SSE) *)
+Theorem sse_find_run_length_kernel_eq_scalar : forall count vals,
+  length vals = 4 * count -> bytes_ok vals ->
+  exists r, sse_find_run_length count vals = Ok r /\ scalar_find_run_length count vals = Ok r.
+Proof. exact sse_find_run_length_eq_scalar. Qed.
+Print Assumptions sse_find_run_length_kernel_eq_scalar.
+Theorem avx2_find_run_length_kernel_eq_scalar : forall count vals,
+  length vals = 4 * count -> bytes_ok vals ->
+  exists r, avx2_find_run_length count vals = Ok r /\ scalar_find_run_length count vals = Ok r.
+Proof. exact avx2_find_run_length_eq_scalar. Qed.
+Print Assumptions avx2_find_run_length_kernel_eq_scalar.
+Theorem avx512_find_run_length_kernel_eq_scalar : forall count vals,
+  length vals = 4 * count -> bytes_ok vals ->
+  exists r, avx512_find_run_length count vals = Ok r /\ scalar_find_run_length count vals = Ok r.
+Proof. exact avx512_find_run_length_eq_scalar. Qed.
+Print Assumptions avx512_find_run_length_kernel_eq_scalar.
+Theorem sse_match_length_kernel_eq_scalar : forall n p m,
+  length p = n -> length m = n -> exists r, sse_match_length n p m = Ok r /\ scalar_match_length n p m = Ok r.
+Proof. exact sse_match_length_eq_scalar. Qed.
+Print Assumptions sse_match_length_kernel_eq_scalar.
